@@ -41,6 +41,12 @@ ASSUMPTIONS = [
     "python warnings are not turned into errors (warnings.simplefilter('ignore') around the matcher)",
     "DIAG-COMM-SNREF always resolves in the candidate, paths never end at a structure/field and never descend "
     "into a simple parameter (database errors raise in strict mode by design)",
+    "EXPECTED-VALUE is compared as written in the document: leading, trailing and interior blanks of a string "
+    "value are significant (blank padded fixed-length ASCII identification fields)",
+    "a matcher whose request_loop() run was abandoned (loop left by break / an exception in the loop body, "
+    "generator closed, exception thrown into it) has not identified anything: it must not answer has_match() "
+    "== False for an ECU for which a candidate matches, and a complete request_loop() run on the same object "
+    "afterwards reports what a fresh matcher reports (same deterministic ECU in both runs)",
     "a service of the variant shadows the inherited service of the same short name (ODX value inheritance)",
     "the yielded addressing flag is part of the request: for base variants USE-PHYSICAL-ADDRESSING (default "
     "true), for ECU variants always physical",
@@ -49,7 +55,8 @@ MUST_HIT = [
     "kind:ecu", "kind:base", "outcome:match", "outcome:nomatch", "decisive-not-first", "last-param-fail",
     "shared-request", "ref:snref", "ref:snpath", "via-struct", "via-field", "any-item-decisive",
     "all-vs-any-decisive", "first-vs-last-decisive", "any-pattern-decisive", "type:u8", "type:u16", "type:str",
-    "type:bytes", "type:f32", "type:dtc", "type:lstr", "type:lbytes", "falsy-value-decisive", "ans:pos", "ans:neg", "ans:mut", "ans:trunc", "local-override",
+    "type:bytes", "type:f32", "type:dtc", "type:lstr", "type:lbytes", "falsy-value-decisive", "expected:padded-string", "padding-decisive", "history:aborted-run",
+    "history:rerun-with-match", "ans:pos", "ans:neg", "ans:mut", "ans:trunc", "local-override",
     "alias-service", "cache-saved-request", "match-via-neg", "two-pos", "phys:false", "wrong-const-answer",
 ]
 
@@ -89,13 +96,82 @@ def _shim_bytes_requests(variants):
             svc._c14_shim = True
 
 
-def drive(cands, cfg, ecu, use_cache, limit):
+class _Transport(Exception):
+    """fault injected by the harness into the loop body / thrown into the generator"""
+
+
+FAULT_KINDS = ["break", "raise", "close", "throw"]
+
+
+def abandon_run(m, cfg, ecu, fault):
+    """first, unfinished request_loop() run on matcher m: the requests before position fault["pos"] are
+    answered, the one at that position is not (the tester leaves the loop there).
+    -> (aborted?, exception of odxtools or None)"""
+    pos, kind = fault["pos"], fault["kind"]
+    n = 0
+    aborted = False
+    with warnings.catch_warnings():
+        warnings.simplefilter("ignore")
+        try:
+            if kind in ("break", "raise"):
+                try:
+                    for _phys, req in m.request_loop():
+                        if n == pos:
+                            aborted = True
+                            if kind == "raise":
+                                raise _Transport("no answer")
+                            break
+                        m.evaluate(M.ecu_answer(cfg, ecu, bytes(req)))
+                        n += 1
+                except _Transport:
+                    pass
+            else:
+                it = m.request_loop()
+                for _phys, req in it:
+                    if n == pos:
+                        aborted = True
+                        if kind == "close":
+                            it.close()
+                        else:
+                            try:
+                                it.throw(_Transport("no answer"))
+                            except _Transport:
+                                pass
+                        break
+                    m.evaluate(M.ecu_answer(cfg, ecu, bytes(req)))
+                    n += 1
+                del it
+        except M.ModelError:
+            raise
+        except Exception as e:
+            return aborted, (type(e).__name__, str(e))
+    return aborted, None
+
+
+def drive(cands, cfg, ecu, use_cache, limit, fault=None):
     from odxtools.variantmatcher import VariantMatcher
-    out = {"exc": None, "reqs": [], "runaway": False, "has": None, "idx": None}
+    out = {"exc": None, "reqs": [], "runaway": False, "has": None, "idx": None, "aborted": False,
+           "after_abort": None}
     with warnings.catch_warnings():
         warnings.simplefilter("ignore")
         try:
             m = VariantMatcher(list(cands), use_cache=use_cache)
+        except Exception as e:
+            out["exc"] = (type(e).__name__, str(e))
+            return out
+        if fault is not None:
+            out["aborted"], exc = abandon_run(m, cfg, ecu, fault)
+            if exc is not None:
+                out["exc"] = exc
+                return out
+            try:
+                out["after_abort"] = bool(m.has_match())
+            except RuntimeError:
+                out["after_abort"] = "pending"
+            except Exception as e:
+                out["exc"] = (type(e).__name__, str(e))
+                return out
+        try:
             it = m.request_loop()
         except Exception as e:
             out["exc"] = (type(e).__name__, str(e))
@@ -140,9 +216,11 @@ def _mk(clause, detail, case, bucket, **feat):
     return core.Failure(clause=clause, detail=detail, case=case, features=f)
 
 
-def evaluate(cfg, layers, order, ecu):
+def evaluate(cfg, layers, order, ecu, fault=None):
     """-> (failures, classes, nontrivial, evaluations)"""
     case = {"cfg": cfg, "order": list(order), "ecu": ecu}
+    if fault is not None:
+        case["fault"] = fault
     cands = [layers[cfg["variants"][i]["sn"]] for i in order]
     ref = M.ref_match(cfg, order, ecu)
     ident = M.ident_requests(cfg, order)
@@ -204,11 +282,45 @@ def evaluate(cfg, layers, order, ecu):
                              f"cache off -> {a['idx']}, cache on -> {b['idx']}", case, "cache-dependence"))
         if len(b["reqs"]) < len(a["reqs"]):
             classes.add("cache-saved-request")
+    # ---- history: an abandoned first run, then a complete run on the same matcher object --------
+    n_eval = 2
+    if fault is not None:
+        for use_cache in (False, True):
+            tag = f"history ({fault['kind']} at request {fault['pos']}, cache {'on' if use_cache else 'off'})"
+            r = drive(cands, cfg, ecu, use_cache, limit, fault=fault)
+            n_eval += 1
+            if r["exc"] is not None:
+                fails.append(_mk("exception", f"{tag}: {r['exc'][0]}: {r['exc'][1]}", case,
+                                 f"history-exception:{r['exc'][0]}", exc=r["exc"][0], msg=r["exc"][1],
+                                 cache=use_cache, history=True))
+                continue
+            if r["runaway"]:
+                fails.append(_mk("termination", f"{tag}: more than {limit} requests", case, "history-runaway"))
+                continue
+            if not r["aborted"]:
+                continue                      # the first run was complete: nothing new
+            classes.add("history:aborted-run")
+            if not ref["amb"] and ref["match"] is not None:
+                classes.add("history:rerun-with-match")
+                if r["after_abort"] is False:
+                    fails.append(_mk("history-premature-report",
+                                     f"{tag}: has_match() answers False after the unfinished run although candidate "
+                                     f"{ref['match']} matches", case, "history:premature-no-match", cache=use_cache))
+            want = ref["match"] if not ref["amb"] else (runs[use_cache]["idx"] if use_cache in runs else "?")
+            if want != "?" and r["idx"] != want:
+                fails.append(_mk("history-outcome",
+                                 f"{tag}: the re-run reports candidate {r['idx']}, a fresh matcher / the reference "
+                                 f"{want}", case, "history:rerun-differs", cache=use_cache))
+            for phys, req in r["reqs"]:
+                if (phys, req) not in ident:
+                    fails.append(_mk("foreign-request", f"{tag}: yielded ({phys}, {req.hex()})", case,
+                                     "history-foreign", cache=use_cache))
+                    break
     # ---- classes / non-triviality (reference only) -------------------------
     classes |= _classes(cfg, order, ecu, ref)
     nontrivial = (not ref["amb"]) and ((len(order) >= 2 and ref["decisive_not_first"]) or
                                        ref["last_param_fail"] or ref["shared"])
-    return fails, classes, nontrivial, 2
+    return fails, classes, nontrivial, n_eval
 
 
 def _classes(cfg, order, ecu, ref):
@@ -225,7 +337,7 @@ def _classes(cfg, order, ecu, ref):
         cl.add("shared-request")
     for alt, name in (("first_item", "any-item-decisive"), ("any_param", "all-vs-any-decisive"),
                       ("last_match", "first-vs-last-decisive"), ("first_pattern", "any-pattern-decisive"),
-                      ("pos_only", "match-via-neg"), ("falsy_absent", "falsy-value-decisive")):
+                      ("pos_only", "match-via-neg"), ("falsy_absent", "falsy-value-decisive"), ("strip_expected", "padding-decisive")):
         a = M.ref_match(cfg, order, ecu, alt=alt)
         if a["match"] != ref["match"]:
             cl.add(name)
@@ -246,6 +358,10 @@ def _classes(cfg, order, ecu, ref):
                 reqs.add(bytes(svc["req"]))
                 chunks = M.mp_chunks(mp)
                 cl.add("ref:snref" if mp.get("snref") is not None else "ref:snpath")
+                if mp["exp"] != mp["exp"].strip():
+                    cl.add("expected:padded-string")
+                elif " " in mp["exp"]:
+                    cl.add("expected:interior-blank")
                 if cfg["kind"] == "base" and mp.get("phys") is False:
                     cl.add("phys:false")
                 if len(svc["pos"]) >= 2:
@@ -295,7 +411,7 @@ def replay(case) -> list:
     case = core.unjson(case)
     cfg = case["cfg"]
     layers = build_db(cfg)
-    fails, _, _, _ = evaluate(cfg, layers, case["order"], case["ecu"])
+    fails, _, _, _ = evaluate(cfg, layers, case["order"], case["ecu"], case.get("fault"))
     for f in fails:
         f.case = core.plain(f.case)
     return fails
@@ -543,7 +659,9 @@ def _strategies():
                     ans = {"k": "raw", "data": data}
                 ecu["map"][rq] = ans
             ecus.append(ecu)
-        return {"cfg": cfg, "order": order, "ecus": ecus}
+        faults = [{"pos": draw(st.sampled_from([0, 0, 1, 1, 2, 3])), "kind": draw(st.sampled_from(FAULT_KINDS))}
+                  for _ in ecus]
+        return {"cfg": cfg, "order": order, "ecus": ecus, "faults": faults}
 
     return cases
 
@@ -701,7 +819,10 @@ def run_shard(spec, seed, tier):
             if tier == "quick" and len(order) == 3 and rnd.random() > 0.34:
                 continue
             for ei, ecu in enumerate(ecus):
-                fails, classes, nontrivial, k = evaluate(cfg, layers, list(order), ecu)
+                fault = None
+                if ei % 4 == (len(order) + sum(order)) % 4:
+                    fault = {"pos": (ei // 4 + sum(order)) % 3, "kind": FAULT_KINDS[(ei // 4 + len(order)) % 4]}
+                fails, classes, nontrivial, k = evaluate(cfg, layers, list(order), ecu, fault)
                 total += k
                 res.note({"catalogue": kind, "order": list(order), "ecu": ei}, nontrivial, classes,
                          sample=(total % 1999 == 1), n=k)
@@ -723,9 +844,9 @@ def run_shard(spec, seed, tier):
         cfg = case["cfg"]
         layers = build_db(cfg)
         new = []
-        for ecu in case["ecus"]:
-            fails, classes, nontrivial, k = evaluate(cfg, layers, case["order"], ecu)
-            res.note({"cfg": cfg, "order": case["order"], "ecu": ecu}, nontrivial, classes, n=k)
+        for ecu, fault in zip(case["ecus"], case["faults"]):
+            fails, classes, nontrivial, k = evaluate(cfg, layers, case["order"], ecu, fault)
+            res.note({"cfg": cfg, "order": case["order"], "ecu": ecu, "fault": fault}, nontrivial, classes, n=k)
             new.extend(_handle(res, kf, fails))
         return new
 
